@@ -195,7 +195,8 @@ package keeper
 // (i.e. before expiry handling), the list is emptied, and each retry runs in its own isolated cache context.
 //@ func (k Keeper) HandleSigningEndBlock
 //@ modifies Store_tss, Other, Bank
-//@ requires wfPending(Store_tss) && wfSignings(Store_tss)
+//@ requires wfPending(Store_tss)
+//@ requires wfSignings(Store_tss)
 //@ ensures  len(pendingSids(Store_tss)) == 0
 //@ loop 0: invariant forall j :: #i <= j && j < len(sids) ==> readySigning(Store_tss, sids[j])
 //@ loop 0: invariant forall a, b :: 0 <= a && a < b && b < len(sids) ==> sids[a] != sids[b]
@@ -342,6 +343,8 @@ package keeper
 //@ modifies Store_tss, Other, Bank
 //@ requires has(Store_tss, types.GroupStoreKey(groupID)) ==> groupAt(Store_tss, groupID).ID == groupID
 //@ ensures forall q Bz :: q != types.GroupStoreKey(groupID) ==> Store_tss[q] == old(Store_tss)[q]
+// (a missing group record panics in MustGetGroup: on normal return the record existed, and it still does, with its id)
+//@ ensures old(has(Store_tss, types.GroupStoreKey(groupID))) && has(Store_tss, types.GroupStoreKey(groupID)) && groupAt(Store_tss, groupID).ID == groupID
 //@ ensures old(groupAt(Store_tss, groupID)).Status == types.GROUP_STATUS_ROUND_3 ==> groupAt(Store_tss, groupID) == with(old(groupAt(Store_tss, groupID)), "Status", (old(anyMalicious(Store_tss, groupID)) ? types.GROUP_STATUS_FALLEN : types.GROUP_STATUS_ACTIVE))
 //@ ensures old(groupAt(Store_tss, groupID)).Status == types.GROUP_STATUS_ROUND_2 ==> groupAt(Store_tss, groupID) == with(old(groupAt(Store_tss, groupID)), "Status", types.GROUP_STATUS_ROUND_3)
 //@ ensures old(groupAt(Store_tss, groupID)).Status == types.GROUP_STATUS_ROUND_1 ==> groupAt(Store_tss, groupID) == with(with(old(groupAt(Store_tss, groupID)), "Status", types.GROUP_STATUS_ROUND_2), "PubKey", old(Store_tss)[types.AccumulatedCommitStoreKey(groupID, 0)])
@@ -353,6 +356,8 @@ package keeper
 //@ modifies Store_tss
 //@ ensures forall g Int :: Store_tss[types.GroupStoreKey(g)] == old(Store_tss)[types.GroupStoreKey(g)]
 //@ ensures Store_tss[types.GroupCountStoreKey] == old(Store_tss)[types.GroupCountStoreKey] && Store_tss[types.LastExpiredGroupIDStoreKey] == old(Store_tss)[types.LastExpiredGroupIDStoreKey] && Store_tss[types.ParamsKey] == old(Store_tss)[types.ParamsKey]
+// (only DKG interim records of the group are deleted: signing records and the two end-block queues are other keys)
+//@ ensures (forall id Int :: Store_tss[types.SigningStoreKey(id)] == old(Store_tss)[types.SigningStoreKey(id)]) && (forall id Int, n Int :: Store_tss[types.SigningAttemptStoreKey(id, n)] == old(Store_tss)[types.SigningAttemptStoreKey(id, n)] && Store_tss[types.PartialSignatureCountStoreKey(id, n)] == old(Store_tss)[types.PartialSignatureCountStoreKey(id, n)]) && Store_tss[types.PendingSigningsStoreKey] == old(Store_tss)[types.PendingSigningsStoreKey] && Store_tss[types.PendingProcessGroupsStoreKey] == old(Store_tss)[types.PendingProcessGroupsStoreKey]
 
 //@ spec lastExpiredGroup(s Store) Int = u64of(s[types.LastExpiredGroupIDStoreKey])
 //@ spec groupCount(s Store) Int = u64of(s[types.GroupCountStoreKey])
@@ -371,6 +376,12 @@ package keeper
 //@         wrapu64(o.CreatedHeight + old(tssParams(Store_tss)).CreationPeriod) <= wrapu64(ctx.BlockHeight())
 //@         && groupAt(Store_tss, g) == ((o.Status != types.GROUP_STATUS_ACTIVE && o.Status != types.GROUP_STATUS_FALLEN) ? with(o, "Status", types.GROUP_STATUS_EXPIRED) : o))
 //@ ensures  forall g Int :: g > lastExpiredGroup(Store_tss) || g <= old(lastExpiredGroup(Store_tss)) ==> Store_tss[types.GroupStoreKey(g)] == old(Store_tss)[types.GroupStoreKey(g)]
+// no group record appears or disappears
+//@ ensures forall g Int :: has(Store_tss, types.GroupStoreKey(g)) == old(has(Store_tss, types.GroupStoreKey(g)))
+//@ loop 0: invariant forall g Int :: has(Store_tss, types.GroupStoreKey(g)) == old(has(Store_tss, types.GroupStoreKey(g)))
+// signing records, parameters and the two end-block queues are not touched by the sweep
+//@ ensures (forall id Int :: Store_tss[types.SigningStoreKey(id)] == old(Store_tss)[types.SigningStoreKey(id)]) && (forall id Int, n Int :: Store_tss[types.SigningAttemptStoreKey(id, n)] == old(Store_tss)[types.SigningAttemptStoreKey(id, n)] && Store_tss[types.PartialSignatureCountStoreKey(id, n)] == old(Store_tss)[types.PartialSignatureCountStoreKey(id, n)]) && Store_tss[types.PendingSigningsStoreKey] == old(Store_tss)[types.PendingSigningsStoreKey] && Store_tss[types.PendingProcessGroupsStoreKey] == old(Store_tss)[types.PendingProcessGroupsStoreKey] && Store_tss[types.ParamsKey] == old(Store_tss)[types.ParamsKey] && Store_tss[types.GroupCountStoreKey] == old(Store_tss)[types.GroupCountStoreKey]
+//@ loop 0: invariant (forall id Int :: Store_tss[types.SigningStoreKey(id)] == old(Store_tss)[types.SigningStoreKey(id)]) && (forall id Int, n Int :: Store_tss[types.SigningAttemptStoreKey(id, n)] == old(Store_tss)[types.SigningAttemptStoreKey(id, n)] && Store_tss[types.PartialSignatureCountStoreKey(id, n)] == old(Store_tss)[types.PartialSignatureCountStoreKey(id, n)]) && Store_tss[types.PendingSigningsStoreKey] == old(Store_tss)[types.PendingSigningsStoreKey] && Store_tss[types.PendingProcessGroupsStoreKey] == old(Store_tss)[types.PendingProcessGroupsStoreKey] && Store_tss[types.GroupCountStoreKey] == old(Store_tss)[types.GroupCountStoreKey]
 //@ loop 0: invariant old(lastExpiredGroup(Store_tss)) + 1 <= groupID && groupID <= latestGroupID + 1 && latestGroupID == old(groupCount(Store_tss)) && latestGroupID < MaxUint64
 //@ loop 0: invariant Store_tss[types.ParamsKey] == old(Store_tss)[types.ParamsKey] && Store_tss[types.LastExpiredGroupIDStoreKey] == old(Store_tss)[types.LastExpiredGroupIDStoreKey]
 //@ loop 0: invariant forall g Int :: old(lastExpiredGroup(Store_tss)) < g && g < groupID ==>
